@@ -285,7 +285,11 @@ func (rn *runner) compute(ctx context.Context) (interface{}, error) {
 }
 
 func item(c cfg) *explore.Item {
-	return &explore.Item{Name: c.name(), Bound: -1, MaxSteps: 6000, Body: func(x *explore.Exec) {
+	bound := -1
+	if c.Pre != "" || c.Retry != 0 {
+		bound = 3 // chained histories and transient failures: the same bound in both tiers (longer executions)
+	}
+	return &explore.Item{Name: c.name(), Bound: bound, MaxSteps: 6000, Body: func(x *explore.Exec) {
 		reactive.WriteThenReadDelay = time.Duration(c.WTR) * time.Millisecond
 		w := &world{x: x, c: c, clean: map[*reactive.Resource]int{}}
 		for i := 0; i < c.NRes; i++ {
